@@ -20,8 +20,25 @@ pub fn names() -> &'static [u8] {
         v.extend_from_slice(".b\u{e9}ss\0.rodata\0\0".as_bytes());
         v.extend_from_slice(&[0xc3, 0]);
         v.extend_from_slice(b"last\0");
+        // names linkers really emit (offsets in REAL_NAME_OFFS)
+        for n in REAL_NAMES {
+            v.extend_from_slice(n.as_bytes());
+            v.push(0);
+        }
         v
     })
+}
+
+/// Section names that linkers emit.
+pub const REAL_NAMES: [&str; 14] = [".eh_frame", ".eh_frame_hdr", ".init_array", ".fini_array", ".symtab", ".strtab", ".shstrtab", ".bss", ".note.gnu.build-id", ".comment", ".debug_info", ".rela.dyn", ".got", ".tdata"];
+
+/// Offset of `REAL_NAMES[i]` in the names buffer.
+pub fn real_name_off(i: usize) -> u32 {
+    let mut off = 39u32;
+    for n in REAL_NAMES.iter().take(i % REAL_NAMES.len()) {
+        off += n.len() as u32 + 1;
+    }
+    off
 }
 
 /// Offsets at which a name starts.
